@@ -2,6 +2,7 @@ package props
 
 import (
 	"fmt"
+	"reflect"
 	"testing"
 
 	"github.com/hashicorp/go-argmapper"
@@ -9,6 +10,56 @@ import (
 )
 
 func init() { evaluators["C08"] = evalC08 }
+
+// filterTypes: the types the filter algebra is exercised on -- the token
+// universe plus unnamed / defined pairs with the same underlying type (Go
+// assignability is wider than FilterType's documented "same type, or
+// implements the interface").
+type fLabels map[string]string
+type fList []string
+
+var filterTypes = append(append([]reflect.Type(nil), engine.Types...),
+	reflect.TypeOf(map[string]string(nil)), reflect.TypeOf(fLabels(nil)), reflect.TypeOf([]string(nil)), reflect.TypeOf(fList(nil)),
+	reflect.TypeOf(0), reflect.TypeOf(""), reflect.TypeOf((*error)(nil)).Elem(), reflect.TypeOf(&engine.FailErr{}), reflect.TypeOf(struct{ A int }{}))
+
+// C08FilterCase: a filter expression over type indices and a probe type.
+type C08FilterCase struct {
+	Or    [][]int `json:"or"` // FilterAnd over FilterOr(FilterType...) groups
+	Probe int     `json:"probe"`
+}
+
+func evalC08Filter(c *engine.Case) engine.Verdict {
+	var v engine.Verdict
+	var x C08FilterCase
+	if err := c.GetX(&x); err != nil {
+		v.Failf("bad case: %v", err)
+		return v
+	}
+	v.Class("filter-algebra")
+	model := func(t, u reflect.Type) bool {
+		return u == t || (t.Kind() == reflect.Interface && u.Implements(t))
+	}
+	probe := filterTypes[x.Probe%len(filterTypes)]
+	want := true
+	var ands []argmapper.FilterFunc
+	for _, grp := range x.Or {
+		gw := false
+		var ors []argmapper.FilterFunc
+		for _, ti := range grp {
+			t := filterTypes[ti%len(filterTypes)]
+			ors = append(ors, argmapper.FilterType(t))
+			gw = gw || model(t, probe)
+		}
+		ands = append(ands, argmapper.FilterOr(ors...))
+		want = want && gw
+	}
+	got := argmapper.FilterAnd(ands...)(argmapper.Value{Name: "x", Type: probe})
+	if got != want {
+		v.Failf("FilterAnd(FilterOr(FilterType...)...) over %v says %v for a value of type %v; by the documented semantics (same type, or implements the interface) it is %v", x.Or, got, probe, want)
+	}
+	v.NonTrivial = len(x.Or) > 0
+	return v
+}
 
 // C08Case: the scenario's Inputs are the arguments pre-supplied to Redefine.
 type C08Case struct {
@@ -46,6 +97,9 @@ func inSet(set []int, t int) bool {
 }
 
 func evalC08(c *engine.Case) engine.Verdict {
+	if c.Note == "filter" {
+		return evalC08Filter(c)
+	}
 	var v engine.Verdict
 	var x C08Case
 	if err := c.GetX(&x); err != nil {
@@ -223,6 +277,24 @@ func evalC08(c *engine.Case) engine.Verdict {
 }
 
 func genC08(g engine.G) *engine.Case {
+	if g.Pct(10) {
+		var x C08FilterCase
+		for i, n := 0, g.Int(0, 3); i < n; i++ {
+			var grp []int
+			for k, m := 0, g.Int(0, 3); k < m; k++ {
+				grp = append(grp, g.Int(0, len(filterTypes)-1))
+			}
+			x.Or = append(x.Or, grp)
+		}
+		x.Probe = g.Int(0, len(filterTypes)-1)
+		if len(x.Or) > 0 && len(x.Or[0]) > 0 && g.Pct(50) {
+			// probe near a filter type: the type itself or its neighbour in the table
+			x.Probe = x.Or[0][0] + g.Int(0, 1)
+		}
+		c := &engine.Case{Note: "filter"}
+		c.SetX(&x)
+		return c
+	}
 	o := engine.DefaultFuncOpts()
 	o.MaxIn = 1
 	o.AllowBuilt = true
